@@ -25,12 +25,16 @@ pub enum Sym {
     SynAck(u32),
     /// local operation: the user of the stream closes it (close_with_error) while no read is in progress
     Close(u32),
+    /// local operation (server role): the task that accepts new streams has ended — the new-stream callback's channel is
+    /// closed; later SYNs cannot be handed out, the streams that exist are not concerned
+    CallbackGone,
 }
 
 impl Sym {
     fn id(&self) -> u32 {
         match self {
             Sym::Syn(i) | Sym::Psh(i) | Sym::Fin(i) | Sym::SynAck(i) | Sym::Close(i) => *i,
+            Sym::CallbackGone => 0,
         }
     }
     fn short(&self) -> String {
@@ -40,6 +44,7 @@ impl Sym {
             Sym::Fin(i) => format!("FIN{i}"),
             Sym::SynAck(i) => format!("SYNACK{i}"),
             Sym::Close(i) => format!("close{i}"),
+            Sym::CallbackGone => "callback-gone".to_string(),
         }
     }
 }
@@ -111,6 +116,13 @@ fn server_scenario(h: Vec<Sym>, out_slot: Arc<Mutex<Option<RunObs>>>) -> Scenari
                                 st.close_with_error(anytls_rs::AnyTlsError::Protocol("closed by the local user".into())).await;
                             }
                         }
+                    }
+                    Sym::CallbackGone => {
+                        // streams accepted so far are taken over first
+                        while let Ok(st) = side.streams.try_recv() {
+                            live.push((st.id(), st));
+                        }
+                        side.streams.close();
                     }
                 }
                 settle().await;
@@ -185,6 +197,7 @@ fn client_scenario(h: Vec<Sym>, out_slot: Arc<Mutex<Option<RunObs>>>) -> Scenari
                             }
                         }
                     }
+                    Sym::CallbackGone => {}
                 }
                 settle().await;
             }
@@ -230,7 +243,7 @@ fn bx(rep: &mut Report, tier: Tier) {
         };
         let depth = if server { depth } else { depth - 1 };
         // local operations (at most one per history; histories containing one are explored one level less deep on the server)
-        let local: Vec<Sym> = vec![Sym::Close(1), Sym::Close(2)];
+        let local: Vec<Sym> = if server { vec![Sym::Close(1), Sym::Close(2), Sym::CallbackGone] } else { vec![Sym::Close(1), Sym::Close(2)] };
         let local_depth = if server { depth - 1 } else { depth };
         // all histories up to depth
         let mut hists: Vec<Vec<Sym>> = vec![vec![]];
@@ -238,7 +251,7 @@ fn bx(rep: &mut Report, tier: Tier) {
         for _ in 0..depth {
             let mut next = vec![];
             for h in &frontier {
-                let has_local = h.iter().any(|x| matches!(x, Sym::Close(_)));
+                let has_local = h.iter().any(|x| matches!(x, Sym::Close(_) | Sym::CallbackGone));
                 if has_local && h.len() >= local_depth {
                     continue;
                 }
@@ -321,7 +334,7 @@ fn bx(rep: &mut Report, tier: Tier) {
             }
             // non-interference: stream s observes exactly what it observes in the history projected to its own frames
             for s in [1u32, 2, 3] {
-                let proj: Vec<Sym> = h.iter().filter(|x| x.id() == s).cloned().collect();
+                let proj: Vec<Sym> = h.iter().filter(|x| x.id() == s || x.id() == 0).cloned().collect();
                 if proj.len() == h.len() {
                     continue;
                 }
@@ -341,7 +354,7 @@ fn bx(rep: &mut Report, tier: Tier) {
                 }
             }
             // sanity on the projection base cases: data after SYN and before FIN is delivered in order
-            if server && h.iter().all(|x| x.id() == 1) && !h.iter().any(|x| matches!(x, Sym::Close(_))) {
+            if server && h.iter().all(|x| x.id() == 1) && !h.iter().any(|x| matches!(x, Sym::Close(_) | Sym::CallbackGone)) {
                 let exp = model_single(h);
                 let a = full.get(&1).cloned().unwrap_or_default();
                 if a != exp {
@@ -386,7 +399,7 @@ fn model_single(h: &[Sym]) -> Vec<StreamObs> {
                     open = false;
                 }
             }
-            Sym::SynAck(_) | Sym::Close(_) => {}
+            Sym::SynAck(_) | Sym::Close(_) | Sym::CallbackGone => {}
         }
     }
     incs
